@@ -496,8 +496,12 @@ impl Parser {
         if let Some(aliases) = aliases {
             aliases.iter().for_each(|alias| {
                 let alias_fullname = alias.fully_qualified_name(namespace).into_owned();
-                self.resolving_schemas
-                    .insert(alias_fullname, resolving_schema.clone());
+                // An alias never shadows a type that is defined (or being defined) under that name
+                if !self.parsed_schemas.contains_key(&alias_fullname) {
+                    self.resolving_schemas
+                        .entry(alias_fullname)
+                        .or_insert_with(|| resolving_schema.clone());
+                }
             });
         }
     }
@@ -519,9 +523,19 @@ impl Parser {
         if let Some(aliases) = aliases {
             aliases.iter().for_each(|alias| {
                 let alias_fullname = alias.fully_qualified_name(namespace);
-                self.resolving_schemas.remove(&alias_fullname);
-                self.parsed_schemas
-                    .insert(alias_fullname.into_owned(), schema.clone());
+                // An alias never shadows a type that is defined (or being defined) under that name
+                let own_placeholder = matches!(
+                    self.resolving_schemas.get(alias_fullname.as_ref()),
+                    Some(Schema::Ref { name }) if name == fully_qualified_name
+                );
+                if own_placeholder {
+                    self.resolving_schemas.remove(alias_fullname.as_ref());
+                }
+                if !self.resolving_schemas.contains_key(alias_fullname.as_ref()) {
+                    self.parsed_schemas
+                        .entry(alias_fullname.into_owned())
+                        .or_insert_with(|| schema.clone());
+                }
             });
         }
     }
